@@ -79,3 +79,51 @@ fn c19_2c_power_grid() {
     kani::cover!(k == 8);
     kani::cover!(k == -3);
 }
+
+// @ob id=C04.7a strength=complete tier=quick fn=frame.rs::interpolate_frame
+// @req four finite frames (|x| <= 1e6), fraction == 0
+// @ens the result equals `current` exactly (both channels; -0.0/+0.0 identified)
+#[kani::proof]
+#[kani::unwind(4)]
+fn c04_7a_interpolate_at_zero() {
+    let f = |_: u8| Frame::new(any_f32_in(-1.0e6, 1.0e6), any_f32_in(-1.0e6, 1.0e6));
+    let (p, c, n1, n2) = (f(0), f(1), f(2), f(3));
+    let out = interpolate_frame(p, c, n1, n2, 0.0);
+    assert!(out.left == c.left && out.right == c.right, "C04.7a: fraction 0 returns the current frame");
+    kani::cover!(c.left != 0.0);
+}
+
+// @ob id=C04.7b strength=complete tier=quick fn=frame.rs::interpolate_frame
+// @req four EQUAL frames v (|v| <= 1e6), any fraction in [0,1]
+// @ens the result is v exactly (the interpolator reproduces constants: c1 = c2 = c3 = 0)
+#[kani::proof]
+#[kani::unwind(4)]
+fn c04_7b_interpolate_constant() {
+    let v = Frame::new(any_f32_in(-1.0e6, 1.0e6), any_f32_in(-1.0e6, 1.0e6));
+    let x = any_f32_in(0.0, 1.0);
+    let out = interpolate_frame(v, v, v, v, x);
+    assert!(out.left == v.left && out.right == v.right, "C04.7b: a constant signal is reproduced exactly at every fractional position");
+    kani::cover!(x > 0.0 && x < 1.0);
+}
+
+// @ob id=C04.7c strength=bounded tier=quick bound="samples on the grid k/4, k=-8..8 (left channel; right = 0); fraction in {0, 1/4, 1/2, 3/4, 1}" fn=frame.rs::interpolate_frame
+// @req four frames on the sample grid
+// @ens equals the 4-point 3rd-order Hermite polynomial ((c3 x + c2) x + c1) x + c0 with c0 = y0, c1 = (y1 - y-1)/2, c2 = y-1 - 5/2 y0 + 2 y1 - y2/2, c3 = (y2 - y-1)/2 + 3/2 (y0 - y1) evaluated in exact (dyadic) arithmetic; fraction 1 gives next_1
+#[kani::proof]
+#[kani::unwind(4)]
+fn c04_7c_interpolate_hermite_grid() {
+    let g = |_: u8| { let k: i8 = kani::any(); kani::assume(k >= -8 && k <= 8); k as f32 / 4.0 };
+    let (ym, y0, y1, y2) = (g(0), g(1), g(2), g(3));
+    let x = match kani::any::<u8>() % 5 { 0 => 0.0, 1 => 0.25, 2 => 0.5, 3 => 0.75, _ => 1.0f32 };
+    let out = interpolate_frame(Frame::new(ym, 0.0), Frame::new(y0, 0.0), Frame::new(y1, 0.0), Frame::new(y2, 0.0), x);
+    // all quantities are small dyadic rationals: f32 arithmetic is exact here, so the reference can be written in f64
+    let (a, b, c, d, t) = (ym as f64, y0 as f64, y1 as f64, y2 as f64, x as f64);
+    let c1 = (c - a) * 0.5;
+    let c2 = a - b * 2.5 + c * 2.0 - d * 0.5;
+    let c3 = (d - a) * 0.5 + (b - c) * 1.5;
+    let want = ((c3 * t + c2) * t + c1) * t + b;
+    assert!(out.left as f64 == want, "C04.7c: 4-point Hermite interpolation");
+    assert!(out.right == 0.0, "C04.7c: channels are independent");
+    if x == 1.0 { assert!(out.left == y1, "C04.7c: fraction 1 lands on the next frame"); }
+    kani::cover!(x == 0.5 && ym != y0);
+}
